@@ -103,3 +103,21 @@ Definition act (s : state) (a : action) : state :=
       end
   end.
 Definition play (n : nat) (l : list action) : state := fold_left act l (init n).
+
+(* ---- all fair completions of a state: every maximal sequence of internal steps (rendezvous, dialers
+   leaving, connect taking its ctx.Done branch); used by the correspondence for racy releases, where the
+   implementation's select may commit to any ready case ---- *)
+Definition internal_next (s : state) : list state :=
+  flat_map (fun i => (match step s (EDeliver i) with Some s' => [s'] | None => [] end) ++
+                     (match step s (ELeave i) with Some s' => [s'] | None => [] end)) (seq 0 (d_n s))
+  ++ (match step s EMainCtx with Some s' => [s'] | None => [] end).
+Fixpoint explore (fuel : nat) (s : state) : list state :=
+  match fuel with
+  | O => [s]
+  | S f => match internal_next s with
+           | [] => [s]
+           | nx => flat_map (explore f) nx
+           end
+  end.
+Definition dial_all (s : state) (l : list (nat * bool)) : state :=
+  fold_left (fun s p => match step s (EDialDone (fst p) (snd p)) with Some s' => s' | None => s end) l s.
